@@ -182,6 +182,7 @@ impl SymKeyEncryptedSessionKey {
                 let iv = vec![0u8; sym_algorithm.block_size()];
                 sym_algorithm.decrypt_with_iv_regular(key, &iv, &mut decrypted_key)?;
 
+                ensure!(!decrypted_key.is_empty(), "empty encrypted session key");
                 let sym_alg = SymmetricKeyAlgorithm::from(decrypted_key[0]);
                 let key = RawSessionKey::from(&decrypted_key[1..]);
 
